@@ -157,7 +157,7 @@ def run_init(root, job):
     p, o, tj, f = job
     d = sandbox(root)
     try:
-        args = ["-v", "-p=" + p, "-o=" + o] + (["-j"] if tj else []) + [".", f, "second.xml"]
+        args = ["-v", "--input-format=" + p, "--output-format=" + o] + (["-j"] if tj else []) + [".", f, "second.xml"]
         rc, out, err = yq(args, d)
         e = err.decode("utf-8", "replace")
         mi = re.search(r"Using input format (.*)", e)
@@ -376,7 +376,7 @@ def match_shown(sc, out):
     pos, shown = 0, []
     for r in res:
         n = len(r["toks"])
-        if toks[pos:pos + n] == r["toks"]:
+        if [t.lower() for t in toks[pos:pos + n]] == [t.lower() for t in r["toks"]]:   # some encoders normalise False to false
             shown.append(r["id"])
             pos += n
     return shown, pos == len(toks)
